@@ -47,6 +47,14 @@ def doc_eval(piece, env):
         if v == "" and "basename" not in mods:
             raise Stop()       # a path that the modifiers reduce to nothing stops the workflow (the code indexes its first byte)
         return v if (v.startswith("/") or "basename" in mods) else "../" + v
+    if kind == "os":
+        # a streamed output is written through a pipe next to the final path: modifiers apply to the pipe's path
+        v = env["out"][name] + ".fifo"
+        for m in mods:
+            v = doc_mod(v, m)
+        if v == "" and "basename" not in mods:
+            raise Stop()
+        return v if (v.startswith("/") or "basename" in mods) else "../" + v
     if kind == "o":
         v = temp_path(env["out"][name])
         for m in mods:
@@ -60,8 +68,8 @@ def doc_eval(piece, env):
 
 def gen_structured(rng):
     """patterns from the documented grammar: literals without braces, clean modifier chains, all values present"""
-    cands = [("i", "a"), ("i", "b"), ("o", "o1"), ("o", "o2"), ("p", "p"), ("p", "q"), ("t", "t1")]
-    env = {"in": {"a": rng.choice(PATHS), "b": rng.choice(PATHS)}, "out": {"o1": rng.choice(PATHS), "o2": rng.choice(PATHS)},
+    cands = [("i", "a"), ("i", "b"), ("o", "o1"), ("o", "o2"), ("p", "p"), ("p", "q"), ("t", "t1"), ("os", "s1")]
+    env = {"in": {"a": rng.choice(PATHS), "b": rng.choice(PATHS)}, "out": {"o1": rng.choice(PATHS), "o2": rng.choice(PATHS), "s1": rng.choice(PATHS)},
            "par": {"p": rng.choice(VALS), "q": rng.choice(VALS)}, "tag": {"t1": rng.choice(VALS)}}
     pieces = []
     for _ in range(rng.randint(1, 6)):
@@ -77,7 +85,8 @@ def gen_structured(rng):
     pat = "".join(p if isinstance(p, str) else "{%s:%s%s}" % (p[0], p[1], "".join("|" + m for m in p[2])) for p in pieces)
     def sel(kind, d):
         return [(n, v) for n, v in d.items() if (kind, n) in used]
-    line = "%s %s 0 %s %s %s" % (hx(pat), pl(sel("i", env["in"])), pl(sel("o", env["out"])), pl(sel("p", env["par"])), pl(sel("t", env["tag"])))
+    outs_used = [(n, v) for n, v in env["out"].items() if ("o", n) in used or ("os", n) in used]
+    line = "%s %s 0 %s %s %s" % (hx(pat), pl(sel("i", env["in"])), pl(outs_used), pl(sel("p", env["par"])), pl(sel("t", env["tag"])))
     try:
         expected = "".join(p if isinstance(p, str) else doc_eval(p, env) for p in pieces)
     except Stop:
